@@ -74,7 +74,7 @@ def _rand_step(g, allow_raise=True):
 def gen_cases(tier, seed):
     g = gen.rng("C15", tier)
     cases = []
-    nseq, nint, nthr = (14, 6, 4) if tier == "quick" else (420, 120, 40)
+    nseq, nint, nthr = (14, 6, 4) if tier == "quick" else (260, 70, 30)
     # --- interleavings (the tight-then-loose pair is always present)
     pairs = [(["g_am1_h2o_tight", "g_am1_nh3_loose"], "joint"), (["g_am1_h2o_tight", "g_pm6sp_h2s_sb1"], "fifo"),
              (["g_pm3_hcn_param", "g_am1_nh3_loose", "g_mndo_nh3_sb2"], "joint"),
@@ -375,7 +375,7 @@ def run_case(case):
                                             "job_elements": J.elements(job), "steps": case["steps"]}})
                 # immediate repeat inside a history (same job, same reuse mode, directly after itself)
                 if prev is not None and prev[0] == job and prev[1] == rr.get("reuse") and where != "interleave" \
-                        and prev[2]["status"] == "ok" and not (rr.get("reuse") == "none" and False):
+                        and prev[2]["status"] == "ok":
                     inc("immediate_repeats_compared")
                     if prev[2]["sha"] != rr["sha"]:
                         b2, w2, _ = _compare(job, prev[2], rr)
